@@ -39,7 +39,7 @@ pub fn model_for(prop: &str) -> String {
     )
 }
 
-pub const OPS_C02: [&str; 16] = [
+pub const OPS_C02: [&str; 17] = [
     "row-of-another-room",
     "author-without-right-on-entity",
     "row-dated-before-author-was-enabled",
@@ -56,9 +56,10 @@ pub const OPS_C02: [&str; 16] = [
     "reference-whose-source-row-is-not-stored",
     "reference-on-foreign-row-with-own-rows-right-only",
     "reference-with-a-label-that-is-not-a-field",
+    "row-moved-from-a-room-without-right-into-a-room-with-every-right",
 ];
 pub const OPS_C06: [&str; 3] = ["reference-splice-entity-label", "signing-oracle-node", "signing-oracle-reference"];
-pub const OPS_C07: [&str; 8] = [
+pub const OPS_C07: [&str; 9] = [
     "older-definition-with-entries-omitted",
     "user-entry-reattached-as-admin",
     "self-signed-admin-entry",
@@ -67,6 +68,7 @@ pub const OPS_C07: [&str; 8] = [
     "self-signed-user-admin-entry",
     "user-entry-moved-to-another-group",
     "existing-reference-signed-again-by-the-adversary",
+    "entries-omitted-while-a-legitimate-entry-is-added",
 ];
 
 #[derive(Clone, Debug, Serialize, Deserialize)]
@@ -96,6 +98,10 @@ struct Ctx {
     r1: (Uid, String),
     r2: (Uid, String),
     r3: (Uid, String),
+    /// a room where the adversary has every right
+    r4: (Uid, String),
+    /// the room of the next session (r1 unless an operator says otherwise)
+    session_room: Option<Uid>,
     g_full: String,
     g_m: String,
     now: i64,
@@ -131,7 +137,7 @@ pub fn generate(seed: u64, property: &str, thorough: bool) -> Trace {
             _ => {
                 steps.push(Step::HonestWrite { dt: *rw.pick(&[DAY_MS, 2 * DAY_MS]) });
                 if property == "C07" && rw.chance(1, 5) {
-                    steps.push(Step::AttackNew { op: 1 + rw.usize(nops - 1) });
+                    steps.push(Step::AttackNew { op: 1 + rw.usize(nops - 2) });
                 } else {
                     steps.push(Step::Attack { op: rw.usize(nops), alone: rw.chance(1, 3) });
                 }
@@ -158,8 +164,14 @@ pub fn directed(property: &str) -> Vec<Trace> {
     };
     let mut out = vec![];
     if property == "C07" {
-        for op in 1..nops {
-            let steps = vec![Step::HonestWrite { dt: 1000 }, Step::AttackNew { op }];
+        // omissions (operators 0 and 8) cannot be told from an older definition by an instance that never saw the room
+        for op in (1..nops - 1).flat_map(|op| [(op, false), (op, true)]) {
+            let (op, disabled) = op;
+            let mut steps = vec![Step::HonestWrite { dt: 1000 }];
+            if disabled {
+                steps.push(Step::DisableM);
+            }
+            steps.push(Step::AttackNew { op });
             out.push(Trace {
                 engine: "byz".into(),
                 property: property.into(),
@@ -167,7 +179,7 @@ pub fn directed(property: &str) -> Vec<Trace> {
                 cfg: serde_json::to_value(&Cfg { answer_bytes: 0 }).unwrap(),
                 steps: steps.iter().map(|s| serde_json::to_value(s).unwrap()).collect(),
                 expect_fingerprint: None,
-                note: Some(format!("C07 operator on a room not seen before: {}", OPS_C07[op])),
+                note: Some(format!("C07 operator on a room not seen before{}: {}", if disabled { " (adversary disabled)" } else { "" }, OPS_C07[op])),
             });
         }
     }
@@ -208,6 +220,8 @@ pub fn execute(trace: &Trace, keep_log: bool) -> (crate::kit::RunReport, Vec<Str
         r1: ([0; 16], String::new()),
         r2: ([0; 16], String::new()),
         r3: ([0; 16], String::new()),
+        r4: ([0; 16], String::new()),
+        session_room: None,
         g_full: String::new(),
         g_m: String::new(),
         now: T0,
@@ -275,6 +289,7 @@ fn setup(c: &mut Ctx) -> Result<(), String> {
         r#"mutate {{ sys.Room{{ admin:[{{verif_key:"{kh}"}}] authorisations:[{{ name:"full" rights:[{{entity:"*" mutate_self:true mutate_all:true}}] users:[{{verif_key:"{kh}"}},{{verif_key:"{kv}"}}{kw}] }},{{ name:"m" rights:[{{entity:"Person" mutate_self:true mutate_all:false}}] }}] }} }}"#
     );
     let r = c.w.nodes[H].mutate(&q, None)?;
+    let _ = c.w.nodes[H].drain_events();
     let v: serde_json::Value = serde_json::from_str(&r).map_err(|e| e.to_string())?;
     let id = v["sys.Room"]["id"].as_str().ok_or("no id")?.to_string();
     c.r1 = (dv::uid_decode(&id).map_err(|e| e.to_string())?, id.clone());
@@ -285,7 +300,22 @@ fn setup(c: &mut Ctx) -> Result<(), String> {
     clocks(c);
     let q = format!(r#"mutate {{ sys.Room{{ id:"{id}" authorisations:[{{ id:"{}" users:[{{verif_key:"{km}"}}] }}] }} }}"#, c.g_m);
     c.w.nodes[H].mutate(&q, None)?;
+    let _ = c.w.nodes[H].drain_events();
     c.m_enabled_from = c.now;
+    if nb == 4 {
+        // W is made an admin, then disabled as an admin one hour later (an entry a stale or hostile sender may omit)
+        let kw = dv::base64_encode(&c.w.nodes[W].vk);
+        c.now += 1000;
+        clocks(c);
+        let q = format!(r#"mutate {{ sys.Room{{ id:"{id}" admin:[{{verif_key:"{kw}"}}] }} }}"#);
+        c.w.nodes[H].mutate(&q, None)?;
+    let _ = c.w.nodes[H].drain_events();
+        c.now += 3_600_000;
+        clocks(c);
+        let q = format!(r#"mutate {{ sys.Room{{ id:"{id}" admin:[{{verif_key:"{kw}" enabled:false}}] }} }}"#);
+        c.w.nodes[H].mutate(&q, None)?;
+    let _ = c.w.nodes[H].drain_events();
+    }
     // r2: H and V only
     c.now += 100;
     clocks(c);
@@ -293,6 +323,7 @@ fn setup(c: &mut Ctx) -> Result<(), String> {
         r#"mutate {{ sys.Room{{ admin:[{{verif_key:"{kh}"}}] authorisations:[{{ name:"full" rights:[{{entity:"*" mutate_self:true mutate_all:true}}] users:[{{verif_key:"{kh}"}},{{verif_key:"{kv}"}}] }}] }} }}"#
     );
     let r = c.w.nodes[H].mutate(&q, None)?;
+    let _ = c.w.nodes[H].drain_events();
     let v: serde_json::Value = serde_json::from_str(&r).map_err(|e| e.to_string())?;
     let id2 = v["sys.Room"]["id"].as_str().ok_or("no id")?.to_string();
     c.r2 = (dv::uid_decode(&id2).map_err(|e| e.to_string())?, id2);
@@ -300,6 +331,7 @@ fn setup(c: &mut Ctx) -> Result<(), String> {
     c.now += 100;
     clocks(c);
     let r = c.w.nodes[H].mutate(&q, None)?;
+    let _ = c.w.nodes[H].drain_events();
     let v: serde_json::Value = serde_json::from_str(&r).map_err(|e| e.to_string())?;
     let id3 = v["sys.Room"]["id"].as_str().ok_or("no id")?.to_string();
     c.r3 = (dv::uid_decode(&id3).map_err(|e| e.to_string())?, id3);
@@ -309,6 +341,22 @@ fn setup(c: &mut Ctx) -> Result<(), String> {
         let p = serde_json::json!({"r": c.r3.1, "n": format!("r3 person {i}"), "c": format!("r3 parent {i}")}).to_string();
         c.w.nodes[H].mutate("mutate { Person{ room_id:$r name:$n parents:[{name:$c}] } }", Some(&p))?;
     }
+    // r4: H, V and M with every right
+    c.now += 100;
+    clocks(c);
+    let q4 = format!(
+        r#"mutate {{ sys.Room{{ admin:[{{verif_key:"{kh}"}}] authorisations:[{{ name:"full" rights:[{{entity:"*" mutate_self:true mutate_all:true}}] users:[{{verif_key:"{kh}"}},{{verif_key:"{kv}"}},{{verif_key:"{km}"}}] }}] }} }}"#
+    );
+    let r = c.w.nodes[H].mutate(&q4, None)?;
+    let _ = c.w.nodes[H].drain_events();
+    let v: serde_json::Value = serde_json::from_str(&r).map_err(|e| e.to_string())?;
+    let id4 = v["sys.Room"]["id"].as_str().ok_or("no id")?.to_string();
+    c.r4 = (dv::uid_decode(&id4).map_err(|e| e.to_string())?, id4);
+    c.now += 1000;
+    clocks(c);
+    let p = serde_json::json!({"r": c.r4.1, "n": "r4 person", "c": "r4 parent"}).to_string();
+    c.w.nodes[H].mutate("mutate { Person{ room_id:$r name:$n parents:[{name:$c}] } }", Some(&p))?;
+    let _ = c.w.nodes[H].drain_events();
     // rows in r2 (V never pulls r2 in this engine: they are "rows of another room" for it)
     for i in 0..2 {
         let p = serde_json::json!({"r": c.r2.1, "n": format!("r2 person {i}"), "c": format!("r2 parent {i}")}).to_string();
@@ -321,7 +369,7 @@ fn setup(c: &mut Ctx) -> Result<(), String> {
     c.w.nodes[H].mutate("mutate { E10{ room_id:$r refs:[{name:$n}] } }", Some(&p))?;
     let _ = c.w.nodes[H].drain_events();
     // V and M learn r1 (M is served like a member: it keeps every row it has seen)
-    for (who, uid) in [(V, c.r1.0), (M, c.r1.0), (V, c.r3.0)] {
+    for (who, uid) in [(V, c.r1.0), (M, c.r1.0), (V, c.r3.0), (V, c.r4.0)] {
         let (p, s) = c.w.two(who, H);
         let (end, mut sess) = crate::net::pull(p, s, uid, None).map_err(|e| format!("{e:?}"))?;
         sess.abandon();
@@ -478,7 +526,7 @@ fn run_session(c: &mut Ctx, inj: Option<Rc<RefCell<Inject>>>) -> Result<SessionE
 }
 
 fn run_session_of(c: &mut Ctx, victim: usize, inj: Option<Rc<RefCell<Inject>>>) -> Result<SessionEnd, String> {
-    let uid = c.r1.0;
+    let uid = c.session_room.take().unwrap_or(c.r1.0);
     let (p, s) = c.w.two(victim, H);
     let mut sess = Session::open(p, s, uid);
     if let Some(i) = inj {
@@ -554,8 +602,7 @@ fn present_anywhere(c: &Ctx, node: usize, id: &Uid) -> Result<Vec<String>, Strin
 }
 
 fn grid(c: &mut Ctx, node: usize, room: Uid) -> Result<Vec<(String, bool)>, String> {
-    let keys: Vec<Vec<u8>> = (0..3).map(|k| c.w.nodes[k].vk.clone()).collect();
-    let _ = W;
+    let keys: Vec<Vec<u8>> = (0..c.w.nodes.len()).map(|k| c.w.nodes[k].vk.clone()).collect();
     let auth = c.w.nodes[node].dbh().auth.clone();
     let r = c.w.nodes[node]
         .run(async move {
@@ -658,7 +705,7 @@ fn exec_step(c: &mut Ctx, st: &Step) -> Result<(), String> {
             c.w.log.sched("disable-m");
         }
         Step::AttackNew { op } => {
-            if c.prop == "C07" && c.w.nodes.len() > W && !c.fresh_used {
+            if c.prop == "C07" && c.w.nodes.len() > W && !c.fresh_used && *op % OPS_C07.len() != 0 && *op % OPS_C07.len() != 8 {
                 c.fresh_used = true;
                 c.any = true;
                 attack_c07_new(c, OPS_C07[*op % OPS_C07.len()])?;
@@ -793,6 +840,23 @@ fn attack_c02(c: &mut Ctx, op: &'static str) -> Result<(), String> {
                 crafted.push((n.id, true));
                 inj.nodes.push(n);
             }
+        }
+        "row-moved-from-a-room-without-right-into-a-room-with-every-right" => {
+            // a row of r3 that V holds (M has no right in r3), re-signed by M as a newer version living in r4, where M has
+            // every right; served while V pulls r4, in which H has just written something on a new day
+            let d3 = oracle::dump_room(&c.w.nodes[V].oracle_conn()?, &c.r3.0)?;
+            let Some(row) = d3.nodes.iter().find(|n| n.entity == "0") else { return Ok(()) };
+            let p = serde_json::json!({"r": c.r4.1, "n": format!("r4 news {}", c.counter)}).to_string();
+            c.w.nodes[H].mutate("mutate { Person{ room_id:$r name:$n } }", Some(&p))?;
+            let _ = c.w.nodes[H].drain_events();
+            let mut n = to_node(row);
+            n.room_id = Some(c.r4.0);
+            n.mdate = day;
+            n._json = person.json.clone();
+            n.sign(&mkey).map_err(|e| e.to_string())?;
+            keep_version = Some((n.id, row.signature.clone()));
+            inj.nodes.push(n);
+            c.session_room = Some(c.r4.0);
         }
         "reference-with-a-label-that-is-not-a-field" => {
             if !m_active {
@@ -1120,6 +1184,19 @@ fn craft_definition(c: &mut Ctx, op: &'static str) -> Result<Option<dv::RoomNode
             rn.admin_edges.retain(|x| x.dest != e0.dest);
             rn.admin_edges.push(e);
         }
+        "entries-omitted-while-a-legitimate-entry-is-added" => {
+            // `cur` already holds a user the honest admin has just added (see attack_c07); the sender leaves out
+            // the entry that disables W as an admin and M's user entry, which the victim both stores
+            if c.w.nodes.len() > W {
+                let kw = dv::base64_encode(&c.w.nodes[W].vk);
+                if let Some(last) = rn.admin_nodes.iter().filter(|u| u.node._json.as_deref().map(|j| j.contains(&kw)).unwrap_or(false)).map(|u| (u.node.mdate, u.node.id)).max() {
+                    rn.admin_nodes.retain(|u| u.node.id != last.1);
+                    rn.admin_edges.retain(|e| e.dest != last.1);
+                }
+            }
+            rn.auth_nodes[g_m].user_nodes.clear();
+            rn.auth_nodes[g_m].user_edges.clear();
+        }
         "user-entry-moved-to-another-group" => {
             // M's (admin-signed) user entry of the restricted group attached to the all-rights group
             let entry = cur.auth_nodes[g_m].user_nodes[0].clone();
@@ -1134,6 +1211,9 @@ fn craft_definition(c: &mut Ctx, op: &'static str) -> Result<Option<dv::RoomNode
 
 fn attack_c07(c: &mut Ctx, op: &'static str) -> Result<(), String> {
     let r1 = c.r1.0;
+    if op == "entries-omitted-while-a-legitimate-entry-is-added" {
+        return attack_c07_merge(c, op);
+    }
     // V first learns every honest change, so that nothing in the crafted definition is legitimately new
     let _ = run_session(c, None)?;
     let Some(rn) = craft_definition(c, op)? else { return Ok(()) };
@@ -1171,6 +1251,48 @@ fn attack_c07(c: &mut Ctx, op: &'static str) -> Result<(), String> {
     } else if let Some(added) = after_entries.iter().find(|e| !before_entries.contains(e)) {
         c.w.violation("C07", &format!("unentitled-entry-stored/{op}"), format!("V stored an entry nobody entitled added: {added}"));
     }
+    Ok(())
+}
+
+/// The honest admin adds an entry; the sender serves that newer definition with entries the victim already stores
+/// left out. What the victim ends with must be exactly the honest definition: old entries kept, new entry added.
+fn attack_c07_merge(c: &mut Ctx, op: &'static str) -> Result<(), String> {
+    let r1 = c.r1.0;
+    let _ = run_session(c, None)?;
+    c.counter += 1;
+    let fresh = dv::Ed25519SigningKey::create_from(&[c.counter as u8; 32]);
+    let kf = dv::base64_encode(&dv::SigningKey::export_verifying_key(&fresh));
+    c.now += 1000;
+    clocks(c);
+    let q = format!(r#"mutate {{ sys.Room{{ id:"{}" authorisations:[{{ id:"{}" users:[{{verif_key:"{kf}"}}] }}] }} }}"#, c.r1.1, c.g_full);
+    c.w.nodes[H].mutate(&q, None)?;
+    let _ = c.w.nodes[H].drain_events();
+    let Some(rn) = craft_definition(c, op)? else { return Ok(()) };
+    let before_entries = room_entries(c, V, &r1)?;
+    let inj = Rc::new(RefCell::new(Inject { room_node: Some(rn), ..Default::default() }));
+    let end = run_session(c, Some(inj.clone()))?;
+    let fired = inj.borrow().fired.clone();
+    c.w.fault(&format!("byz_{op}"));
+    c.w.log.sched(format!("attack {op} end={} fired={}", matches!(end, SessionEnd::Ok), fired.join(",")));
+    if !fired.contains(&"room-node-replaced") {
+        c.w.probe("byz_operator_not_applied");
+        return Ok(());
+    }
+    c.w.probe(&format!("applied_{op}"));
+    let after_entries = room_entries(c, V, &r1)?;
+    if let Some(lost) = before_entries.iter().find(|e| !after_entries.contains(e)) {
+        c.w.violation("C07", &format!("existing-entry-lost-or-altered/{op}"), format!("after the definition with omissions V no longer stores: {lost}"));
+    }
+    if c.escalated {
+        c.w.probe("additions_not_judged_after_an_escalation");
+        return Ok(());
+    }
+    let truth = grid(c, H, r1)?;
+    let got = grid(c, V, r1)?;
+    if let Some(((label, t), (_, g))) = truth.iter().zip(got.iter()).find(|(x, y)| x.1 != y.1) {
+        c.w.violation("C07", &format!("decisions-differ-from-old-plus-added/{op}"), format!("after a definition that adds a legitimate entry and leaves out entries V stores, V decides {label} = {g}; old entries plus the added one give {t}"));
+    }
+    // a restart must not change the decisions either (memory and storage agree)
     Ok(())
 }
 
